@@ -33,6 +33,8 @@ type Profile struct {
 	RoleW        []map[string]int // per-task op weights (task i uses RoleW[i%len])
 	ForceLocalP  bool             // every descriptor-local call is a decision point
 	PopularP     float64          // probability of a transaction that points many refs at one object id
+	FwdLogP      float64          // probability that a new log entry is forward-dated (update index above its table's limits)
+	PrefixNamesP float64          // probability that a run uses the prefix-rich alphabet (name-check refusals)
 }
 
 var defaultNames = []string{"HEAD", "refs/heads/a", "refs/heads/b", "refs/heads/c", "refs/tags/t", "refs/tags/u", "refs/x/y", "refs/x/z"}
@@ -164,6 +166,9 @@ func (g *genCtx) txn() TxnSpec {
 			default:
 				ls.Which = r.Intn(4)
 			}
+			if ls.Which < 0 && g.p.FwdLogP > 0 && r.Bool(g.p.FwdLogP) {
+				ls.Fwd = 1 + r.Intn(6)
+			}
 			ls.Time = g.timeLo + uint64(r.Intn(40))
 			if r.Bool(0.1) {
 				ls.Time = 0
@@ -275,6 +280,8 @@ func (g *genCtx) pickNames() {
 			ns = append(ns, fmt.Sprintf("refs/heads/n%02d", i))
 		}
 		g.names = ns
+	} else if g.p.PrefixNamesP > 0 && g.r.Bool(g.p.PrefixNamesP) {
+		g.names = prefixNames
 	} else if len(g.names) > 3 && g.r.Bool(0.3) {
 		// narrow alphabet: more shadowing
 		g.names = g.names[:3]
